@@ -542,11 +542,11 @@ func (x *Engine) safeEvalBool2(ev *Eval, c *Clause) (res string) {
 	return ev.evalBool(c.Expr)
 }
 
-// softName: the clause names something the current code does not have (a local variable that an edit renamed or
-// removed, the iteration count #i of a loop that is no longer a range loop). Such a clause cannot be stated about this
+// softName: the clause names something the current code does not have (a local variable or a struct field that an edit
+// renamed or removed, the iteration count #i of a loop that is no longer a range loop). Such a clause cannot be stated about this
 // code: it is skipped, the function is marked degraded (failures are then reported as undecided, not as violations).
 func softName(msg string) bool {
-	return strings.Contains(msg, "unknown name") || strings.Contains(msg, "is not defined here")
+	return strings.Contains(msg, "unknown name") || strings.Contains(msg, "is not defined here") || strings.HasPrefix(msg, "no field ")
 }
 
 func (x *Engine) safeEvalBool(ev *Eval, c *Clause) (res string) {
